@@ -54,9 +54,9 @@ func c20Stages(n, sp int) {
 	verifReach("stages")
 }
 
-func VerifHarness_C20_Stages3()  { c20Stages(3, -1) }
-func VerifHarness_C20_Stages5()  { c20Stages(5, 2) }
-func VerifHarness_C20_Stages4()  { c20Stages(4, -1) }
+func VerifHarness_C20_Stages3() { c20Stages(3, -1) }
+func VerifHarness_C20_Stages5() { c20Stages(5, 2) }
+func VerifHarness_C20_Stages4() { c20Stages(4, -1) }
 
 // end to end on every path: lexical, NLP, typo fallback
 func c20EndToEnd(n, sp int, nlpOn bool) {
